@@ -48,10 +48,18 @@ func CombineFromNextProtos(prefix string, chunks []string) (string, error) {
 	}
 	var ret string
 	for _, chunk := range chunks {
-		// Strip that and the number
-		if strings.HasPrefix(chunk, prefix) {
-			ret += strings.TrimPrefix(chunk, prefix)[3:]
+		rest, ok := strings.CutPrefix(chunk, prefix)
+		if !ok {
+			continue
 		}
+		// Strip the chunk number and its hyphen. The number is written with a
+		// minimum (not a fixed) width, so split at the delimiter rather than
+		// at a fixed offset; a chunk without one is malformed.
+		_, value, found := strings.Cut(rest, "-")
+		if !found {
+			return "", fmt.Errorf("(%s) malformed chunk: missing chunk number delimiter", op)
+		}
+		ret += value
 	}
 	return ret, nil
 }
